@@ -47,6 +47,7 @@ type propCfg struct {
 	Lanes         []lane
 	Rule          string
 	Assumptions   []string
+	Universes     map[string]int // finite input universes the scenario draws from uniformly (name -> size); the evidence says how much of each was reached
 	HangIsVerdict bool // termination is part of the property: a confirmed hang is a violation
 }
 
@@ -70,6 +71,7 @@ type workerReport struct {
 	Steps      int               `json:"steps"`
 	SimTimeNs  int64             `json:"sim_time_ns"`
 	Sigs       []string          `json:"sigs"`
+	Cover      []string          `json:"cover"`
 	Faults     map[string]int    `json:"faults"`
 	Probes     map[string]int    `json:"probes"`
 	SiteRuns   map[string]int    `json:"site_runs"`
@@ -684,6 +686,7 @@ func main() {
 	}
 	agg := &workerReport{Faults: map[string]int{}, Probes: map[string]int{}, SiteRuns: map[string]int{}}
 	sigs := map[string]bool{}
+	cover := map[string]bool{}
 	raceUnreproduced := 0
 	var failures, raceFailures []json.RawMessage
 	var hangs []json.RawMessage
@@ -715,6 +718,9 @@ func main() {
 		laneEvals[laneName] += r.Evals
 		for _, s := range r.Sigs {
 			sigs[r.Variant+":"+s] = true
+		}
+		for _, cv := range r.Cover {
+			cover[cv] = true
 		}
 		for k, v := range r.Faults {
 			agg.Faults[k] += v
@@ -1081,6 +1087,7 @@ func main() {
 			"simulated_time_ms":      agg.SimTimeNs / 1e6,
 			"faults_fired":           agg.Faults,
 			"probes":                 probes,
+			"enumerated_inputs":      coverSummary(cover, cfg.Universes),
 			"evaluations_per_lane":   laneEvals,
 			"nontrivial_evaluations": agg.Nontrivial,
 			"known_findings_hit":     len(knownHits),
@@ -1270,5 +1277,21 @@ func actionlintFrames(rep string) []string {
 		return nil
 	}
 	sort.Strings(out)
+	return out
+}
+
+// coverSummary reports, per stated finite input universe, how many of its elements the run
+// evaluated at least once (elements are reported by the scenario as "<universe>:<element>").
+func coverSummary(cover map[string]bool, universes map[string]int) map[string]any {
+	reached := map[string]int{}
+	for cv := range cover {
+		if i := strings.IndexByte(cv, ':'); i > 0 {
+			reached[cv[:i]]++
+		}
+	}
+	out := map[string]any{}
+	for u, size := range universes {
+		out[u] = map[string]any{"size": size, "reached": reached[u], "complete": reached[u] == size}
+	}
 	return out
 }
